@@ -74,7 +74,6 @@ structure DataInv (st : Stream) (rs : RunState) : Prop where
   inv : RInv rs
   excl : st.tmp = [] ∨ rs.decoder.partialBuf = []
   pb : rs.decoder.partialBuf.length < 20 ∨ StopNow rs.decoder rs.output
-  opt : st.options.allowIncomplete = false
 
 /-- the one-shot tail of a stream in Data state followed by the future input `G`:
 the logical remaining input is `tmp ++ partialBuf ++ G` -/
@@ -85,9 +84,10 @@ theorem rfin_stopNow {rs : RunState} (hI : RInv rs) (h : StopNow rs.decoder rs.o
     (R R' : Bytes) (snk : Sink) : rfin rs R snk = rfin rs R' snk :=
   fin_stopNow (clr_inv hI) h R R' snk
 
-theorem finish_data {st : Stream} {rs : RunState} (hD : DataInv st rs) (snk : Sink) :
+theorem finish_data {st : Stream} {rs : RunState} (hD : DataInv st rs)
+    (ho : st.options.allowIncomplete = false) (snk : Sink) :
     st.finish snk = sfin st rs [] snk := by
-  rw [finish_data_eq hD.state hD.opt]
+  rw [finish_data_eq hD.state ho]
   have hI : Inv rs.decoder rs.output ⟨rs.range, rs.code⟩ := hD.inv
   rcases hD.excl with h | h
   · rw [h, finish_buf_sim _ _ _ _ snk hI (lmu_lt_loopFuel [] hI)]
@@ -185,7 +185,7 @@ theorem write_data_ok (hN : Need20) {st st' : Stream} {rs : RunState} {data : By
     obtain ⟨rfl, rfl, rfl⟩ := h4
     obtain ⟨hI1, hpb1, hV1⟩ := tmp_run_ok hN hD ht h5
     obtain ⟨g2, g5, g0, gV⟩ := phase2_ok hN hI1 hpb1 h3
-    refine ⟨rs2, ⟨rfl, g2, .inl rfl, g5, hD.opt⟩, rfl, rfl, Nat.sub_le _ _, g0, fun G => ?_⟩
+    refine ⟨rs2, ⟨rfl, g2, .inl rfl, g5⟩, rfl, rfl, Nat.sub_le _ _, g0, fun G => ?_⟩
     refine (hV1 (data ++ G)).trans ?_
     show Veq _ (rfin rs2 ([] ++ rs2.decoder.partialBuf ++ (data.drop (data.length - rd2.rem.length) ++ G)) k2)
     rw [List.nil_append]
@@ -200,7 +200,7 @@ theorem write_data_ok (hN : Need20) {st st' : Stream} {rs : RunState} {data : By
     obtain ⟨rfl, rfl, rfl⟩ := h4
     have htmp : st.tmp = [] := List.eq_nil_of_length_eq_zero (by omega)
     obtain ⟨g2, g5, g0, gV⟩ := phase2_ok hN hD.inv hD.pb h3
-    refine ⟨rs2, ⟨rfl, g2, .inl rfl, g5, hD.opt⟩, rfl, rfl, Nat.sub_le _ _, g0, fun G => ?_⟩
+    refine ⟨rs2, ⟨rfl, g2, .inl rfl, g5⟩, rfl, rfl, Nat.sub_le _ _, g0, fun G => ?_⟩
     show Veq (rfin rs (st.tmp ++ rs.decoder.partialBuf ++ (data ++ G)) snk)
       (rfin rs2 ([] ++ rs2.decoder.partialBuf ++ (data.drop (data.length - rd2.rem.length) ++ G)) k2)
     rw [htmp, List.nil_append, List.nil_append]
@@ -332,15 +332,16 @@ theorem feed_data (hN : Need20) : ∀ (f : Nat) (st : Stream) (rs : RunState) (d
 any list of chunks and finishing has the same verdict and result as the one-shot
 tail on `tmp ++ partialBuf ++ chunks.flatten`. -/
 theorem data_run_partial (hN : Need20) : ∀ (cs : List Bytes) (st : Stream) (rs : RunState) (snk : Sink),
-    DataInv st rs → Veq (streamRunFrom st cs snk) (sfin st rs cs.flatten snk) := by
+    DataInv st rs → st.options.allowIncomplete = false →
+    Veq (streamRunFrom st cs snk) (sfin st rs cs.flatten snk) := by
   intro cs
   induction cs with
   | nil =>
-    intro st rs snk hD
-    rw [streamRunFrom_nil, finish_data hD]
+    intro st rs snk hD ho
+    rw [streamRunFrom_nil, finish_data hD ho]
     exact Veq.refl _
   | cons c cs ih =>
-    intro st rs snk hD
+    intro st rs snk hD ho
     rcases hf : Stream.feed (c.length + 1) st c 0 snk with ⟨k, st1, r⟩
     have hp := feed_data hN _ st rs c 0 snk _ hD (Nat.lt_succ_self _) hf
     cases r with
@@ -349,9 +350,9 @@ theorem data_run_partial (hN : Need20) : ∀ (cs : List Bytes) (st : Stream) (rs
       exact .inl ⟨isErr_mk _ _, by rw [List.flatten_cons]; exact hp _⟩
     | ok m =>
       rw [streamRunFrom_cons_ok hf]
-      obtain ⟨rs1, hD1, _, hV⟩ := hp
+      obtain ⟨rs1, hD1, ho1, hV⟩ := hp
       rw [List.flatten_cons]
-      exact (ih st1 rs1 k hD1).trans (hV _).symm
+      exact (ih st1 rs1 k hD1 (by rw [ho1]; exact ho)).trans (hV _).symm
 
 end StreamEq
 end Lzma
